@@ -459,7 +459,7 @@ impl Check for C11 {
          effect. Non-trivial = >= 1 accepted overlay commit and (chain depth >= 2 or >= 3 overlays); distinct = distinct serialized case".into()
     }
     fn cases(tier: Tier) -> u32 {
-        tier.pick(3200, 30000)
+        tier.pick(4800, 40000)
     }
     fn strategy(tier: Tier) -> BoxedStrategy<C11Case> {
         let batch = || gen::batch_strategy(tier.pick(8, 20), tier.pick(40, 300), gen::vlen_strategy().boxed());
